@@ -59,7 +59,7 @@ def gen_record(rng, r):
     for j in range(ntempl):
         e = ents[(r * 3 + j * 7) % len(ents)] if j == 0 else rng.choice(ents)
         templates.append(gen_template(rng, e))
-    seeds = rng.sample([0, 1, 7, 42, 2**31 - 1], 2)
+    seeds = rng.sample([0, 1, 7, 42, 2**31 - 1, 2**32 - 1], 2)
     nthreads = 1 if mode != "M3" else rng.choice([2, 3, 3, 4] if thorough else [2, 2, 3])
     cfg["p_mid"] = 0.0 if mode == "M1" else rng.choice([0.01, 0.05, 0.2])
     cfg["noise"] = mode == "M3" and rng.random() < 0.5
